@@ -269,3 +269,123 @@ func (g *genState) val(depth int) amf0ref.Val {
 	}
 	return v
 }
+
+// ---------------------------------------------------------------- in-place edits
+
+// Clone deep-copies a model value.
+func Clone(v amf0ref.Val) amf0ref.Val {
+	c := v
+	c.Str = append(amf0ref.Bytes(nil), v.Str...)
+	c.Props = nil
+	for _, p := range v.Props {
+		c.Props = append(c.Props, amf0ref.Prop{Key: append(amf0ref.Bytes(nil), p.Key...), Val: Clone(p.Val)})
+	}
+	return c
+}
+
+type editNode struct {
+	lib   amf0.Amf0
+	m     *amf0ref.Val
+	depth int
+}
+
+func collect(a amf0.Amf0, m *amf0ref.Val, depth int, noStrict bool, out *[]editNode) {
+	switch m.K {
+	case amf0ref.Null, amf0ref.Undefined:
+		return
+	case amf0ref.Strict:
+		if noStrict {
+			return
+		}
+	}
+	*out = append(*out, editNode{a, m, depth})
+	c, ok := a.(setter)
+	if !ok {
+		return
+	}
+	seen := map[string]bool{}
+	for i := range m.Props {
+		k := string(m.Props[i].Key)
+		if seen[k] {
+			continue // Get reaches the first property with a key only
+		}
+		seen[k] = true
+		if child := c.Get(k); child != nil {
+			collect(child, &m.Props[i].Val, depth+1, noStrict, out)
+		}
+	}
+}
+
+// Mutate edits one value of the library tree a in place - the way an application changes a
+// value it has already built (and possibly already sized or marshalled) - and the model m
+// alike: a new property set on a container, or a scalar overwritten through its pointer.
+// Nested places are preferred over the root. It reports what it did ("" if nothing is editable).
+func Mutate(a amf0.Amf0, m *amf0ref.Val, sel uint64, noStrict bool) string {
+	var all []editNode
+	collect(a, m, 0, noStrict, &all)
+	nested := all[:0:0]
+	for _, n := range all {
+		if n.depth > 0 {
+			nested = append(nested, n)
+		}
+	}
+	if len(nested) > 0 {
+		all = nested
+	}
+	if len(all) == 0 {
+		return ""
+	}
+	n := all[sel%uint64(len(all))]
+	sel /= uint64(len(all))
+	switch x := n.lib.(type) {
+	case *amf0.Number:
+		n.m.Num = numClasses[sel%uint64(len(numClasses))] ^ 0x10
+		*x = amf0.Number(math.Float64frombits(n.m.Num))
+		return fmt.Sprintf("number at depth %d overwritten", n.depth)
+	case *amf0.Boolean:
+		if n.m.Bool != 0 {
+			n.m.Bool = 0
+		} else {
+			n.m.Bool = 1
+		}
+		*x = amf0.Boolean(n.m.Bool != 0)
+		return fmt.Sprintf("boolean at depth %d toggled", n.depth)
+	case *amf0.String:
+		s := append(append([]byte{}, n.m.Str...), "+edited"...)
+		if len(s) > 65535 {
+			s = s[:3]
+		}
+		n.m.Str = s
+		*x = amf0.String(s)
+		return fmt.Sprintf("string at depth %d overwritten", n.depth)
+	}
+	key := fmt.Sprintf("edit%d", sel%7)
+	for has(n.m, key) {
+		key += "x"
+	}
+	val := amf0ref.Val{K: amf0ref.String, Str: []byte("new value")}
+	if sel&8 != 0 {
+		val = amf0ref.Val{K: amf0ref.Object, Props: []amf0ref.Prop{{Key: []byte("k"), Val: amf0ref.Val{K: amf0ref.Number, Num: 0x4045000000000000}}}}
+	}
+	switch x := n.lib.(type) {
+	case *amf0.Object:
+		x.Set(key, Build(val))
+	case *amf0.EcmaArray:
+		x.Set(key, Build(val))
+	case *amf0.StrictArray:
+		x.Set(key, Build(val))
+	default:
+		return ""
+	}
+	n.m.Props = append(n.m.Props, amf0ref.Prop{Key: []byte(key), Val: val})
+	return fmt.Sprintf("property set on a %v at depth %d", n.m.K, n.depth)
+}
+
+func has(m *amf0ref.Val, key string) bool {
+	for _, p := range m.Props {
+		if string(p.Key) == key {
+			return true
+		}
+	}
+	return false
+}
